@@ -164,7 +164,7 @@ class Sequential(Part):
             "reset, start_task, stop_task, remove_task, stop x clock increments (0, small, large); after every op every live task is compared with the "
             "model (completed, total, percentage, finished, fixed finish time, speed >= 0, time_remaining >= 0); non-trivial = a total change or reset "
             "between two advances of the same task")
-    budget = {"quick": (4, 1500), "thorough": (16, 20000)}
+    budget = {"quick": (8, 2000), "thorough": (16, 20000)}
 
     def strategy(self, tier):
         clock = st.lists(st.sampled_from([0, 0, 0.25, 1, 1, 2.5, 40, 1000]), min_size=1, max_size=8)
@@ -400,7 +400,7 @@ class SchedulesGenerated(Part):
     rule = ("generated programs (2-6 threads x 1-4 ops advance/update(advance=)/update(visible=) over 1-3 shared tasks, integer or quarter amounts, generated "
             "clock) x generated schedules (<= 6 preemptions at arbitrary yield points, generated tie-break tape); non-trivial = the schedule switched threads "
             "inside a rich frame and two threads advanced the same task")
-    budget = {"quick": (4, 500), "thorough": (16, 10000)}
+    budget = {"quick": (8, 800), "thorough": (16, 10000)}
 
     def strategy(self, tier):
         amt = st.one_of(st.integers(0, 5), st.integers(0, 20).map(lambda k: k / 4))
